@@ -269,6 +269,12 @@ public:
         }
 
         for (size_t i = 0; i < rank; i++) {
+            if (rhs.dims[i] == 0) {
+                throw std::invalid_argument("NDSize: division by zero");
+            }
+        }
+
+        for (size_t i = 0; i < rank; i++) {
             dims[i] /= rhs.dims[i];
         }
 
